@@ -36,11 +36,15 @@ def main():
     os.rmdir(wt)
     assert sh("git -C %s worktree add -q --detach %s HEAD" % (REPO, wt)).returncode == 0
     try:
-        build = "gcc -w -I include %s/demo.c src/avtp/*.c src/avtp/*/*.c src/avtp/*/*/*.c -o /tmp/seed_demo_%s -lm" % (dst, name)
+        # the demo is compiled from where the agent wrote it (<worktree>/_seed/1/demo.c): some demos
+        # #include library sources relative to that place
+        os.makedirs(os.path.join(wt, "_seed", "1"), exist_ok=True)
+        shutil.copy(os.path.join(dst, "demo.c"), os.path.join(wt, "_seed", "1", "demo.c"))
+        build = "gcc -w -I include _seed/1/demo.c src/avtp/*.c src/avtp/*/*.c src/avtp/*/*/*.c -o /tmp/seed_demo_%s -lm -lpthread" % name
         if meta.get("build"):
             # the agent's own build line; the demo is built as ./demo inside the worktree.  A demo
             # that does not COMPILE with the change counts as failing (header properties).
-            build = "rm -f demo; " + meta["build"].replace("DEMO_C", "%s/demo.c" % dst) + " && cp demo /tmp/seed_demo_%s" % name
+            build = "rm -f demo; " + meta["build"].replace("DEMO_C", "_seed/1/demo.c") + " && cp demo /tmp/seed_demo_%s" % name
         r0 = sh(build, cwd=wt)
         d0 = sh("/tmp/seed_demo_%s" % name, cwd=wt) if r0.returncode == 0 else None
         ran.append("demo on unmodified tree: exit %s" % (d0.returncode if d0 else "build failed: " + r0.stderr[-300:]))
